@@ -16,6 +16,7 @@ import CssVerif.Driver.LinkOps
 import CssVerif.Driver.OwnOps
 import CssVerif.Driver.ResolveOps
 import CssVerif.Driver.OmitOps
+import CssVerif.Driver.PPOps
 import CssVerif.Driver.UrlOps
 import CssVerif.Driver.EscOps
 import CssVerif.Driver.ValueOps
@@ -70,6 +71,8 @@ def step (line : String) : String :=
   | ["own", roots, hist] => OwnOps.run roots hist
   | ["resolve", sh] => ResolveOps.opResolve sh
   | ["omit", bits, sheet] => OmitOps.opOmit bits sheet
+  | ["pp", g, fl, toks] => PP.PPOps.opPP g fl toks
+  | ["ppshow", g, toks] => PP.PPOps.opShow g toks
   | ["urlrt", u] => UrlOps.opUrlRt u
   | ["urltrav", t] => UrlOps.opUrlTrav t
   | ["escall", e, t] => EscOps.opEscAll e t
